@@ -103,9 +103,9 @@ def read_seqs(text):
             op["res"] = f[1] if len(f) > 1 else ""
         elif tag == "D":
             if op is not None and op["dump"] is None:
-                op["dump"] = f[1:5]
+                op["dump"] = f[1:6]
             else:
-                cur.events.append(("D", f[1:5], len(cur.ops), len(cur.truths) - 1))
+                cur.events.append(("D", f[1:6], len(cur.ops), len(cur.truths) - 1))
         elif tag == "T":
             cur.truths.append(parse_descs(f[1]))
         elif tag == "X":
@@ -342,6 +342,23 @@ def check_seq(sq, fails, stats):
                 if not progress:
                     fails.append(dict(oracle="C09_converges(no silent spin)", op=ops[-1], finding_class="", _seq=sq,
                                       detail="stuck situation %s: a failing round neither changed the cache nor consulted PD nor returned an error" % stuck_kind))
+    # after a store was decommissioned and the store check noticed it: real requests (LocateKey + RegionRequestSender) are served
+    # by the current leader within 10 locate+send rounds
+    for ev in sq.events:
+        if ev[0] == "X" and ev[1][0] == "sender end":
+            x = ev[1]
+            stats["oracle_evals"] += 1
+            stats["sender_convs"] = stats.get("sender_convs", 0) + 1
+            k, rounds, served, store = unhex(x[1]), int(x[2]), x[3] == "true", x[4]
+            tr = [t for t in sq.truths[ev[3]] if contains(t["s"], t["e"], k)]
+            lead_store = tr[0]["leader"].split(":")[1] if tr else "?"
+            if not served or store != lead_store:
+                fails.append(dict(oracle="C09_converges(request after a store was decommissioned)", op=sq.ops[ev[2] - 1] if ev[2] else None, finding_class="", _seq=sq,
+                                  detail="a store was drained and became a tombstone while a warm region led by it was idle; after the store check "
+                                         "the request for key %s %s after %d locate+send rounds (leader is on store %s)"
+                                         % (x[1], ("was served by store %s" % store) if served else "was not served", rounds, lead_store)))
+        elif ev[0] == "X" and ev[1][0].startswith("sender panic"):
+            fails.append(dict(oracle="no-panic", op=None, finding_class="", _seq=sq, detail=ev[1][0]))
     # convergence, and every served request reached the current leader of the region holding the key
     for ev in sq.events:
         if ev[0] != "X":
@@ -518,7 +535,7 @@ def main(tier, replay):
                     "that touch PD or the merger",
                samples=samples, traces_validated_against_impl=mstats.get("cases", 0), input_distribution=classes,
                sequences=mstats.get("seqs", 0), store_replies_compared=mstats.get("replies", 0), model_mismatches=len(mism), oracle_failures=len([f for f in fails if not f["finding_class"]]),
-               known_finding_hits=len([f for f in fails if f["finding_class"]]), bucket_lookups=stats.get("bucket_lookups", 0), stuck_rounds=stats.get("stuck_rounds", 0), observations={"bucket_fallback_unclamped": stats.get("obs_bucket_fallback_unclamped", 0)},
+               known_finding_hits=len([f for f in fails if f["finding_class"]]), bucket_lookups=stats.get("bucket_lookups", 0), stuck_rounds=stats.get("stuck_rounds", 0), sender_convergences=stats.get("sender_convs", 0), observations={"bucket_fallback_unclamped": stats.get("obs_bucket_fallback_unclamped", 0)},
                convergence_rounds={str(k): n for k, n in sorted(stats["conv_rounds"].items())}, convergence_bound=CONV_BOUND)
     rc = v.finish()
     vlib.write_evidence(PID, cov, t0, violations=len(v.violations), level="proof",
